@@ -1,4 +1,5 @@
 import TcVerif.Model.Task
+import TcVerif.Proofs.SrcStatus
 /-!
 # C19 — Task mutators, their recorded operations and the task model agree
 
@@ -261,5 +262,15 @@ theorem C19_depmap_exact (ws : List (Option Nat)) (tasks : Nat → Option TMap) 
     refine ⟨a, ha, ?_⟩
     simp only [hta, List.mem_filterMap]
     exact ⟨b, ⟨kv, hkv, hb⟩, by simp [htb, hst]⟩
+
+/-- statuses read back as written, known or not: the source's `Status::to_taskmap ∘ from_taskmap`
+    (regenerated from `src/task/status.rs` on every run) is the identity on every string -/
+theorem C19_source_status_roundtrip (s : String) : Src.statusToTaskmap (Src.statusFromTaskmap s) = s :=
+  src_status_roundtrip s
+
+theorem C19_source_status_known :
+    Src.statusFromTaskmap "pending" = .pending ∧ Src.statusFromTaskmap "completed" = .completed
+    ∧ Src.statusFromTaskmap "deleted" = .deleted ∧ Src.statusFromTaskmap "recurring" = .recurring :=
+  src_status_known
 
 end Tc
